@@ -526,9 +526,9 @@ def gen_case(rng, small=False):
         n = rng.randint(0, 8 if not small else 5)
         for _ in range(n):
             r = rng.random()
-            if r < 0.25 and di > 0:
+            if r < 0.25 and di > 0 and sum(1 for st in d["hist"] if st[0] != "f") < 4:
                 d["hist"].append(["add", rng.randrange(di)])
-            elif r < 0.3:
+            elif r < 0.3 and sum(1 for st in d["hist"] if st[0] != "f") < 3:      # each + may double the object
                 d["hist"].append(["addself"])
             else:
                 name, args = gen_filter(rng, cls)
@@ -899,12 +899,14 @@ def _smaller(c):
 
 
 def shrink(case):
-    cur, changed, budget = case, True, 400
+    import time
+    cur, changed, budget, t0 = case, True, 400, time.time()
     while changed and budget > 0:
         changed = False
         for cand in _smaller(cur):
             budget -= 1
-            if budget <= 0:
+            if budget <= 0 or time.time() - t0 > 60:
+                budget = 0
                 break
             try:
                 if oracle(cand):
